@@ -11,6 +11,7 @@ import (
 	"bytes"
 	"context"
 	"encoding/binary"
+	"encoding/hex"
 	"fmt"
 	"io"
 	"log/slog"
@@ -87,7 +88,57 @@ func verifC11Part(p int32) int32 {
 	return p
 }
 
+// verifC11BoundaryNames: topic names at the edges of what a request can carry and of what the broker accepts (249 = longest
+// valid topic name; 32767 = longest string of a non-flexible request, int16 length; control bytes and quotes expand under
+// %q / escaping).  Handlers echo request strings into replies (names, error messages): the reply must stay decodable at the
+// request version.  32768 bytes only fit a flexible (compact string) request.
+var verifC11BoundaryNames = []string{
+	strings.Repeat("a", 249), strings.Repeat("a", 250), strings.Repeat("b", 32766), strings.Repeat("b", 32767),
+	strings.Repeat("\x00", 9000), strings.Repeat("\"", 16384), strings.Repeat("é", 16383), strings.Repeat("\x7f", 32767),
+	"orders", "..", strings.Repeat("c", 32768),
+}
+
+// verifC11SetTopicName puts a boundary name into the first element of the request's `Topics` list (appending one if the
+// list is empty).  Returns false when the request has no such list (or the name does not fit the version).
+func verifC11SetTopicName(req kmsg.Request, idx int) bool {
+	name := verifC11BoundaryNames[idx%len(verifC11BoundaryNames)]
+	if len(name) > 32767 && !req.IsFlexible() {
+		return false
+	}
+	v := reflect.ValueOf(req)
+	if v.Kind() != reflect.Ptr || v.Elem().Kind() != reflect.Struct {
+		return false
+	}
+	topics := v.Elem().FieldByName("Topics")
+	if !topics.IsValid() || !topics.CanSet() || topics.Kind() != reflect.Slice || topics.Type().Elem().Kind() != reflect.Struct {
+		return false
+	}
+	if topics.Len() == 0 {
+		topics.Set(reflect.Append(topics, reflect.Zero(topics.Type().Elem())))
+	}
+	f := topics.Index(0).FieldByName("Topic")
+	switch {
+	case !f.IsValid() || !f.CanSet():
+		return false
+	case f.Kind() == reflect.String:
+		f.SetString(name)
+	case f.Kind() == reflect.Ptr && f.Type().Elem().Kind() == reflect.String:
+		f.Set(reflect.ValueOf(&name))
+	default:
+		return false
+	}
+	return true
+}
+
+// verifC11LongNames: in one generated request out of four, a boundary topic name.
+func verifC11LongNames(req kmsg.Request, rng *protocol.VerifRng) {
+	if rng.Below(4) == 0 {
+		verifC11SetTopicName(req, rng.Below(len(verifC11BoundaryNames)))
+	}
+}
+
 func verifC11Fixup(req kmsg.Request, rng *protocol.VerifRng) {
+	defer verifC11LongNames(req, rng)
 	switch r := req.(type) {
 	case *kmsg.OffsetForLeaderEpochRequest:
 		for i := range r.Topics {
@@ -149,7 +200,7 @@ type verifC11Reply struct {
 	path    string
 }
 
-func verifC11Run(key, ver int16, corr int32, seed uint64) (out string) {
+func verifC11Run(key, ver int16, corr int32, seed uint64, nameIdx int) (out string) {
 	defer func() {
 		if r := recover(); r != nil {
 			out = fmt.Sprintf("panic %v", r)
@@ -161,6 +212,9 @@ func verifC11Run(key, ver int16, corr int32, seed uint64) (out string) {
 		return "no-such-key"
 	}
 	verifC11Fixup(req, rng)
+	if nameIdx >= 0 && !verifC11SetTopicName(req, nameIdx) {
+		return "reply not-applicable"
+	}
 	cid := "verif-c11"
 	frame := kmsg.NewRequestFormatter(kmsg.FormatterClientID(cid)).AppendRequest(nil, req, corr)
 	header, parsed, err := protocol.ParseRequest(frame[4:])
@@ -456,6 +510,29 @@ func verifC11Conc(seed uint64, ms int) string {
 	return fmt.Sprintf("conc ok requests=%d goroutines=%d frames=%d", done.Load(), n, len(frames))
 }
 
+func verifC11SkipRespHeader(k, v int16, hx string) (out string) {
+	defer func() {
+		if r := recover(); r != nil {
+			out = "srh panic"
+		}
+	}()
+	var data []byte
+	if hx != "-" {
+		var err error
+		if data, err = hex.DecodeString(hx); err != nil {
+			return "bad-op"
+		}
+	}
+	body, ok := protocol.SkipResponseHeader(k, v, data)
+	if !ok {
+		return "srh no"
+	}
+	if len(body) == 0 {
+		return "srh ok body=-"
+	}
+	return "srh ok body=" + hex.EncodeToString(body)
+}
+
 func init() {
 	if os.Getenv("VERIF_HARNESS") != "C11" {
 		return
@@ -484,18 +561,28 @@ func init() {
 		if len(f) == 0 || strings.HasPrefix(f[0], "#") {
 			continue
 		}
-		if f[0] == "req" && len(f) == 5 {
+		if (f[0] == "req" && len(f) == 5) || (f[0] == "reqb" && len(f) == 6) {
+			// reqb k v corr seed idx: the same generated request with boundary topic name #idx forced into Topics[0]
 			k, _ := strconv.Atoi(f[1])
 			v, _ := strconv.Atoi(f[2])
 			c, _ := strconv.ParseInt(f[3], 10, 64)
 			s, _ := strconv.ParseUint(f[4], 10, 64)
-			res := verifC11Run(int16(k), int16(v), int32(c), s)
+			idx := -1
+			if f[0] == "reqb" {
+				idx, _ = strconv.Atoi(f[5])
+			}
+			res := verifC11Run(int16(k), int16(v), int32(c), s, idx)
 			fmt.Fprintln(w, res)
 			if res == "timeout" {
 				// the handler goroutine is still running (possibly spinning): do not let it disturb later ops
 				w.Flush()
 				os.Exit(3)
 			}
+		} else if f[0] == "srh" && len(f) == 4 {
+			// protocol.SkipResponseHeader on arbitrary reply bytes (what the proxy does with a backend reply)
+			k, _ := strconv.Atoi(f[1])
+			v, _ := strconv.Atoi(f[2])
+			fmt.Fprintln(w, verifC11SkipRespHeader(int16(k), int16(v), f[3]))
 		} else {
 			fmt.Fprintln(w, "bad-op")
 		}
